@@ -2,6 +2,7 @@ package cctfe
 
 import (
 	"bytes"
+	"context"
 	"encoding/json"
 	"fmt"
 	"os"
@@ -13,6 +14,9 @@ import (
 
 	ct "github.com/google/certificate-transparency-go"
 	"github.com/google/trillian"
+	"google.golang.org/grpc/codes"
+	"google.golang.org/grpc/status"
+	"google.golang.org/protobuf/proto"
 
 	"verifharness/ctfeenv"
 	"verifharness/ref"
@@ -34,6 +38,9 @@ type Step struct {
 		Start  int    `json:"start"`
 		End    int    `json:"end"`
 		Index  int    `json:"index"`
+		Fe     string `json:"fe"`    // the front end instance that serves the request
+		Fault  string `json:"fault"` // what goes wrong while it is served ("none", "sign", "lostReply", a backend refusal)
+		T      int    `json:"t"`     // ClockSet: the tick the front end's clock is set to
 	} `json:"args"`
 	Reply struct {
 		Status  int    `json:"status"`
@@ -52,10 +59,55 @@ type Step struct {
 		} `json:"entry"`
 	} `json:"reply"`
 	Pre struct {
-		Size   int `json:"size"`
-		Queued int `json:"queued"`
-		Now    int `json:"now"`
+		Size   int            `json:"size"`
+		Queued int            `json:"queued"`
+		Now    int            `json:"now"` // the backend's clock
+		Clk    map[string]int `json:"clk"` // each front end's clock
 	} `json:"pre"`
+}
+
+// rpcFaultCode maps a backend refusal of CTFE.tla (RpcFaults, and the lost reply) to the gRPC condition.
+var rpcFaultCode = map[string]codes.Code{"unavailable": codes.Unavailable, "deadline": codes.DeadlineExceeded,
+	"exhausted": codes.ResourceExhausted, "internal": codes.Internal, "lostReply": codes.DeadlineExceeded}
+
+// arm makes the fault of one step happen to the next request served by env: the signer device of that front end
+// fails its next signature ("sign"), the backend refuses its next call without doing anything (RpcFaults), or the
+// backend performs its next call and the reply is lost ("lostReply").  The returned function disarms what was not
+// consumed and reports whether the fault took place.
+func arm(env *ctfeenv.Env, fault string) func() bool {
+	be := env.Backend
+	switch fault {
+	case "", "none":
+		return func() bool { return false }
+	case "sign":
+		_, f0 := env.Signer.Counts()
+		env.Signer.FailNext(1)
+		return func() bool {
+			env.Signer.FailNext(0)
+			_, f1 := env.Signer.Counts()
+			return f1 > f0
+		}
+	case "lostReply":
+		used := false
+		be.Intercept = func(seq int, method string, req, rsp proto.Message, err error) (proto.Message, error) {
+			if used {
+				return rsp, err
+			}
+			used = true
+			return nil, status.Error(rpcFaultCode[fault], "injected: reply lost")
+		}
+		return func() bool { be.Intercept = nil; return used }
+	default:
+		used := false
+		be.Refuse = func(ctx context.Context, method string) error {
+			if used {
+				return nil
+			}
+			used = true
+			return status.Error(rpcFaultCode[fault], "injected: backend refuses the call")
+		}
+		return func() bool { be.Refuse = nil; return used }
+	}
 }
 
 type served struct {
@@ -90,7 +142,7 @@ func runBehaviour(t *testing.T, beh []Step, idx int, rep *vh.Report, dir, prop s
 	if err != nil {
 		t.Fatalf("world: %v", err)
 	}
-	env, be := w.Env, w.Env.Backend
+	be := w.Env.Backend
 	var sths []served
 	issued := map[string]uint64{} // cert id -> SCT timestamp handed out
 	kinds := map[string]bool{}
@@ -99,9 +151,17 @@ func runBehaviour(t *testing.T, beh []Step, idx int, rep *vh.Report, dir, prop s
 	}
 	for n, s := range beh {
 		kinds[fmt.Sprintf("%s/%d", s.Op, s.Reply.Status)] = true
+		// the front end instance that serves this step, and what goes wrong while it does
+		env, err := w.FE(s.Args.Fe)
+		if err != nil {
+			t.Fatalf("front end %q: %v", s.Args.Fe, err)
+		}
+		disarm := arm(env, s.Args.Fault)
 		switch s.Op {
 		case "Tick":
-			w.SetTick(s.Pre.Now + 1)
+			// the backend's clock: it stamps the roots of the Sequence / Resign steps (s.Pre.Now there)
+		case "ClockSet":
+			w.SetTickFE(env, s.Args.T)
 		case "Sequence":
 			be.Sequence(s.Args.K, w.Nanos(s.Pre.Now, s.Args.Rem), nil)
 		case "Resign":
@@ -111,13 +171,17 @@ func runBehaviour(t *testing.T, beh []Step, idx int, rep *vh.Report, dir, prop s
 			ncalls := be.NumCalls()
 			code, rsp, body, err := env.AddChain(sub.Chain, s.Args.Ep == "add-pre-chain")
 			rl := env.ReqLog.Last()
+			disarm()
 			if err != nil {
 				viol(n, "addchain:panic", err.Error())
 				continue
 			}
 			if code != s.Reply.Status {
-				viol(n, fmt.Sprintf("addchain:status:%s:%s:want%d:got%d", s.Args.Ep, kindOf(sub), s.Reply.Status, code),
-					fmt.Sprintf("%s of a %s (%s): specification %d, implementation %d %s", s.Args.Ep, kindOf(sub), sub.Shape, s.Reply.Status, code, body))
+				fp := fmt.Sprintf("addchain:status:%s:%s:want%d:got%d", s.Args.Ep, kindOf(sub), s.Reply.Status, code)
+				if s.Args.Fault != "none" && s.Args.Fault != "" {
+					fp += ":fault=" + s.Args.Fault
+				}
+				viol(n, fp, fmt.Sprintf("%s of a %s (%s) while %s: specification %d, implementation %d %s", s.Args.Ep, kindOf(sub), sub.Shape, faultText(s.Args.Fault), s.Reply.Status, code, body))
 				continue
 			}
 			if len(rl.Statuses) != 1 || rl.Statuses[0] != code {
@@ -130,6 +194,15 @@ func runBehaviour(t *testing.T, beh []Step, idx int, rep *vh.Report, dir, prop s
 				continue
 			}
 			wantTS := w.Ms(s.Reply.TS)
+			if s.Reply.Dup && rsp.Timestamp != wantTS {
+				// the clause of C01 about repeated submissions, by where the serving front end's clock stands
+				clock := s.Pre.Clk[feName(s.Args.Fe)]
+				where := map[bool]string{true: "behind", false: "ahead-of"}[clock < s.Reply.TS]
+				if clock == s.Reply.TS {
+					where = "at"
+				}
+				viol(n, "addchain:dup-not-stored-timestamp:clock-"+where+"-stored", fmt.Sprintf("%s of an already logged certificate through front end %s whose clock (tick %d) is %s the stored entry's timestamp (tick %d): the SCT carries %d, the stored entry %d", s.Args.Ep, feName(s.Args.Fe), clock, where, s.Reply.TS, rsp.Timestamp, wantTS))
+			}
 			if prop == "C01" {
 				if msg := w.CheckSCT(sub, rsp, wantTS); msg != "" {
 					viol(n, fmt.Sprintf("addchain:sct:%s:dup=%v:%s", sub.Shape, s.Reply.Dup, short(msg)), fmt.Sprintf("%s (%s, duplicate=%v): %s", s.Args.Ep, sub.Shape, s.Reply.Dup, msg))
@@ -139,7 +212,7 @@ func runBehaviour(t *testing.T, beh []Step, idx int, rep *vh.Report, dir, prop s
 					viol(n, "addchain:backend-calls", fmt.Sprintf("expected exactly one QueueLeaf, saw %d calls", len(calls)))
 				} else {
 					req := calls[0].Req.(*trillian.QueueLeafRequest)
-					nowMs := w.Ms(s.Pre.Now)
+					nowMs := w.Ms(s.Pre.Clk[feName(s.Args.Fe)])
 					if !bytes.Equal(req.Leaf.LeafValue, sub.ExpectedLeaf(nowMs)) {
 						viol(n, "addchain:leafvalue:"+sub.Shape, "the leaf handed to the backend is not the TLS encoding of the entry an independent client derives at the current time ("+sub.Shape+")")
 					}
@@ -166,8 +239,19 @@ func runBehaviour(t *testing.T, beh []Step, idx int, rep *vh.Report, dir, prop s
 			issued[sub.ID] = rsp.Timestamp
 		case "GetSTH":
 			code, body, _, err := env.Do("GET", ct.GetSTHPath, nil, nil)
-			if err != nil || code != 200 {
-				viol(n, "getsth:status", fmt.Sprintf("get-sth: %d %v %s", code, err, body))
+			took := disarm()
+			if err != nil || code != s.Reply.Status {
+				fp := "getsth:status"
+				if s.Args.Fault != "none" && s.Args.Fault != "" {
+					fp = fmt.Sprintf("getsth:status:want%d:got%d:fault=%s", s.Reply.Status, code, s.Args.Fault)
+				}
+				viol(n, fp, fmt.Sprintf("get-sth while %s (fault took place: %v): specification %d, implementation %d %v %s", faultText(s.Args.Fault), took, s.Reply.Status, code, err, body))
+				continue
+			}
+			if code != 200 {
+				if s.Args.Fault == "sign" && !took {
+					viol(n, "getsth:failed-without-the-fault", fmt.Sprintf("get-sth answered %d although the signer was not asked and the backend answered: %s", code, body))
+				}
 				continue
 			}
 			sth, msg := w.CheckSTH(body)
@@ -181,6 +265,7 @@ func runBehaviour(t *testing.T, beh []Step, idx int, rep *vh.Report, dir, prop s
 			sths = append(sths, served{sth.TreeSize, sth.Root})
 		case "GetConsistency":
 			code, body, _, err := env.Do("GET", ct.GetSTHConsistencyPath, q("first", s.Args.First, "second", s.Args.Second), nil)
+			disarm()
 			if err != nil {
 				viol(n, "consistency:panic", err.Error())
 				continue
@@ -208,6 +293,7 @@ func runBehaviour(t *testing.T, beh []Step, idx int, rep *vh.Report, dir, prop s
 			sub := w.Subs[s.Args.Cert]
 			h := sub.LeafHashAt(w.Ms(s.Args.TS))
 			code, body, _, err := env.Do("GET", ct.GetProofByHashPath, q("hash", h, "tree_size", s.Args.Size), nil)
+			disarm()
 			if err != nil {
 				viol(n, "proofbyhash:panic", err.Error())
 				continue
@@ -232,6 +318,7 @@ func runBehaviour(t *testing.T, beh []Step, idx int, rep *vh.Report, dir, prop s
 			}
 		case "GetEntries":
 			code, body, _, err := env.Do("GET", ct.GetEntriesPath, q("start", s.Args.Start, "end", s.Args.End), nil)
+			disarm()
 			if err != nil {
 				viol(n, "getentries:panic", err.Error())
 				continue
@@ -261,6 +348,7 @@ func runBehaviour(t *testing.T, beh []Step, idx int, rep *vh.Report, dir, prop s
 			}
 		case "GetEntryAndProof":
 			code, body, _, err := env.Do("GET", ct.GetEntryAndProofPath, q("leaf_index", s.Args.Index, "tree_size", s.Args.Size), nil)
+			disarm()
 			if err != nil {
 				viol(n, "entryandproof:panic", err.Error())
 				continue
@@ -292,6 +380,7 @@ func runBehaviour(t *testing.T, beh []Step, idx int, rep *vh.Report, dir, prop s
 			}
 		}
 	}
+	env := w.Env
 	if prop == "C06" {
 		// every two STHs served are linked by a served consistency proof that verifies
 		for i := range sths {
@@ -342,6 +431,25 @@ func runBehaviour(t *testing.T, beh []Step, idx int, rep *vh.Report, dir, prop s
 		key = strings.Join(ks, ",")
 	}
 	rep.Eval(key)
+}
+
+func feName(f string) string {
+	if f == "" {
+		return "A"
+	}
+	return f
+}
+
+func faultText(f string) string {
+	switch f {
+	case "", "none":
+		return "nothing goes wrong"
+	case "sign":
+		return "the log signer fails"
+	case "lostReply":
+		return "the backend performs the call and its reply is lost"
+	}
+	return "the backend refuses the call (" + f + ")"
 }
 
 func shapes(w *World) map[string]string {
